@@ -5,6 +5,7 @@ from collections import namedtuple
 from pathlib import Path
 
 from kappadata.utils.logging import log
+from .copying_utils import create_folder_with_file
 from .copying_utils import folder_contains_mostly_zips, run_unzip_jobs
 from .create_zips import create_zips_imagefolder
 
@@ -71,7 +72,12 @@ def copy_imagefolder_from_global_to_local(global_path, local_path, relative_path
             log(log_fn, f"using manually copied dataset '{dst_path}'")
             return CopyImageFolderResult(was_copied=False, was_deleted=False, was_zip=False, was_zip_classwise=False)
     else:
-        dst_path.mkdir(parents=True)
+        # dst_path must never exist without its start_copy_file (it would be mistaken for a manually copied dataset)
+        create_folder_with_file(
+            folder=dst_path,
+            file_name=start_copy_file.name,
+            content="this file indicates that an attempt to copy the dataset automatically was started",
+        )
 
     # create start_copy_file
     with open(start_copy_file, "w") as f:
